@@ -1364,10 +1364,11 @@ class Controller:
         See Bluetooth spec Vol 4, Part E - 7.1.6 Disconnect Command
         '''
         handle = command.connection_handle
+        cis_link = self.find_iso_link_by_handle(handle)
         if not (
             self.find_connection_by_handle(handle)
             or self.find_classic_sco_link_by_handle(handle)
-            or self.find_iso_link_by_handle(handle)
+            or (cis_link and cis_link.acl_connection)
         ):
             self._send_hci_command_status(
                 hci.HCI_ErrorCode.UNKNOWN_CONNECTION_IDENTIFIER_ERROR, command.op_code
@@ -1380,17 +1381,23 @@ class Controller:
         # Notify the link of the disconnection
         if connection := self.find_classic_connection_by_handle(handle):
             if self.link:
-                self.send_lmp_packet(
-                    connection.peer_address,
-                    lmp.LmpDetach(command.reason),
-                )
+                try:
+                    self.send_lmp_packet(
+                        connection.peer_address,
+                        lmp.LmpDetach(command.reason),
+                    )
+                except InvalidArgumentError:
+                    logger.debug('peer is no longer on the link')
                 self.on_classic_disconnected(connection.peer_address, command.reason)
             else:
                 # Remove the connection
                 del self.classic_connections[connection.peer_address]
         elif connection := self.find_le_connection_by_handle(handle):
             if self.link:
-                connection.send_ll_control_pdu(ll.TerminateInd(command.reason))
+                try:
+                    connection.send_ll_control_pdu(ll.TerminateInd(command.reason))
+                except InvalidArgumentError:
+                    logger.debug('peer is no longer on the link')
                 self.on_le_disconnected(connection, command.reason)
             else:
                 # Remove the connection
